@@ -363,6 +363,31 @@ func propC18(w *World, r *Report) {
 		r.Check(closedHere && onClosed, "W4", "writer: returns only on the closed channel, after closing the file builder", w.InstrPos(ret), strings.Join(guardStrings(gs), " ; "))
 	}
 	r.Check(nret == 1, "W4", "writer has a single return", w.Pos(wr.Pos()), fmt.Sprint(nret))
+	// file rotation: inside the loop a new file is opened only after the current builder was closed (flushed)
+	for _, b := range wr.Blocks {
+		if !inLoop(b) {
+			continue
+		}
+		for i, in := range b.Instrs {
+			c, ok := in.(*ssa.Call)
+			if !ok || c.Call.StaticCallee() == nil || c.Call.StaticCallee().Signature.Results().Len() < 1 {
+				continue
+			}
+			res := c.Call.StaticCallee().Signature.Results().At(0).Type()
+			if !typeIs(res, modPath+"/cmd/thermal-writer", "Builder") {
+				continue
+			}
+			closedBefore := false
+			for j := 0; j < i; j++ {
+				if cc, ok := b.Instrs[j].(*ssa.Call); ok {
+					if callee := cc.Call.StaticCallee(); callee != nil && callee.Name() == "Close" && typeIs(cc.Call.Args[0].Type(), modPath+"/cmd/thermal-writer", "Builder") {
+						closedBefore = true
+					}
+				}
+			}
+			r.Check(closedBefore, "W4", "writer: on file rotation the current file is closed (flushed) before the next one is opened", w.InstrPos(c), "")
+		}
+	}
 	checkBufferedClose(w, r)
 	checkHeaderSection(w, r)
 }
